@@ -337,7 +337,9 @@ func (g *Gen) tmpl(d int) N {
 	parts := []any{}
 	n := 1 + g.R.Intn(3)
 	for i := 0; i < n; i++ {
-		if g.chance(2) {
+		if g.chance(7) {
+			parts = append(parts, N{"k": "e", "e": N{"k": "nilnode"}}) // '{}'
+		} else if g.chance(2) {
 			parts = append(parts, N{"k": "lit", "v": Cps(g.pick([]string{"x", " ", "a=", "{", "q'", "#"}))})
 		} else {
 			e := g.texpr(d-1, g.pick([]string{"int", "str", "bool", "list"}))
